@@ -1,6 +1,7 @@
 #!/bin/bash
 # usage: mk_seed_wt.sh <name>   — scratch git worktree of /repo HEAD at /tmp/seedwt-<name> for a seeding sub-agent
+# (the debug build output of /repo is copied in so that the registry dependencies need no rebuild)
 WT=/tmp/seedwt-$1
 git -C /repo worktree remove --force $WT 2>/dev/null
 rm -rf $WT
-git -C /repo worktree add -q --detach $WT HEAD && mkdir -p $WT/SEED_OUT && echo $WT
+git -C /repo worktree add -q --detach $WT HEAD && mkdir -p $WT/SEED_OUT && { [ -d /repo/target/debug ] && mkdir -p $WT/target && cp -r /repo/target/debug $WT/target/debug; } ; echo $WT
